@@ -348,7 +348,8 @@ OPS = ["open", "close", "sense-a", "sense-af", "sense-f", "sense-b",
        "sense-dep", "listen-tta", "listen-ttb", "listen-dep",
        "listen-ttf", "exchange", "max-send", "max-recv", "connect-rdwr",
        "connect-rdwr-stay", "connect-rdwr-beep", "connect-llcp",
-       "connect-card", "exit", "exit-exc", "atexit"]
+       "connect-card", "exit", "exit-exc", "atexit", "sense-none",
+       "connect-none"]
 
 
 def do_op(w, op):
@@ -380,6 +381,12 @@ def do_op(w, op):
             raise RuntimeError("application error inside the with-block")
         except RuntimeError as e:
             clf.__exit__(type(e), e, e.__traceback__)
+    elif op == "sense-none":
+        # legal calls that have nothing to do: no target / no option given
+        clf.sense()
+        clf.sense(iterations=2, interval=0.01)
+    elif op == "connect-none":
+        clf.connect()
     elif op == "sense-a":
         clf.sense(nfc.clf.RemoteTarget("106A"))
     elif op == "sense-af":
@@ -663,6 +670,8 @@ FIXED = [
     [["connect-rdwr-stay"], ["exit-exc"]],
     [["sense-a", "exchange", "exchange", "exchange"], ["max-send", "atexit"]],
     [["connect-rdwr-stay"], ["atexit"]],
+    [["sense-a", "exchange", "exchange", "exchange"], ["max-send", "sense-none"]],
+    [["connect-rdwr-stay"], ["sense-none", "connect-none"]],
     [["connect-card", "sense-f"], ["exchange"], ["max-send", "max-recv"]],
     [["open", "sense-a", "exchange"], ["open", "listen-dep"]],
 ]
